@@ -4,8 +4,9 @@ Object-graph ("heap") model of `beyond.orbits.statevector.StateVector`, `orbit.O
 
 A heap is a list of cells; an address is an index; allocation appends.  Cells: the ndarray
 buffer of a state vector, its `_data` dict, metadata containers (list / dict / ndarray), maneuver
-objects, propagators, covariance objects (their own buffer and dict are created afresh by
-`Cov.__new__` and are kept inside the cell) and the StateVector / Orbit objects themselves.
+objects, propagators, covariance objects (their 6x6 buffer is a cell of its own, so that "two
+covariances live in the same memory" is expressible; their `_data` dict is created afresh by
+`Cov.__new__` and is kept inside the cell) and the StateVector / Orbit objects themselves.
 
 Coordinate values are *symbolic*: `Val` records which initial vector they come from and which
 form conversions, frame transformations and element assignments were applied, in order.  The
@@ -62,13 +63,16 @@ inductive Cell
   | man (t : Nat)
   | prop (t : Nat)
   | sv (orbit : Bool) (buf data : Nat)
-  | cov (v : Val) (frame : Fr) (orb : Nat) (orbFrame : Fr)
+  /-- `buf`: address of the 6x6 buffer (a `.buf` cell); `orb`: the private cartesian copy of the owning state -/
+  | cov (buf : Nat) (frame : Fr) (orb : Nat) (orbFrame : Fr)
   /-- marker allocated when a Frame object is cloned (its address is the clone's identity) -/
   | clone
 deriving DecidableEq, Repr
 
 inductive Err
   | unknownForm | unknownFrame | runtime | value | typeErr | attr
+  | eop     -- `EopError`: a date without Earth-orientation data under the 'error' policy
+  | index   -- `IndexError`
   | bad     -- malformed heap / unsupported request (never produced on well-formed input)
 deriving DecidableEq, Repr
 
@@ -170,9 +174,18 @@ def setForm (h : Heap) (a : Nat) (name : String) : Res Unit :=
   | none => (h, .error .unknownForm)
   | some g => setFormTo h a g
 
+/-- the environment: which rotations / offsets between two frames (given by name) raise, and with what — the centre of
+the target frame cannot be reached; no Earth-orientation data for the date under the 'error' policy (which rotations
+need them depends on what the Date object has cached, so this is an input of the model, not computed by it) -/
+abbrev Env := String → String → Option Err
+
+/-- nothing fails (the default configuration: missing Earth-orientation data are replaced by zeros) -/
+def noEnv : Env := fun _ _ => none
+
 /-- the state-vector part of the frame setter (everything before the covariance is looked at);
-`fr` is the resolved Frame -/
-def setFrameBasic (h : Heap) (a : Nat) (fr : Fr) : Res Unit :=
+`fr` is the resolved Frame. When the environment makes `Frame.transform` raise, the `finally` clause
+converts the elements back, like in the Hill cases -/
+def setFrameBasic (h : Heap) (a : Nat) (fr : Fr) (env : Env := noEnv) : Res Unit :=
   match getSV h a with
   | none => (h, .error .bad)
   | some s =>
@@ -181,8 +194,11 @@ def setFrameBasic (h : Heap) (a : Nat) (fr : Fr) : Res Unit :=
       let v1 := mkConv s.form "cartesian" s.val
       match s.frame, fr with
       | .reg x _, .reg y _ =>
-        let h := write h s.buf (.buf (mkConv "cartesian" s.form (.xform x y v1)))
-        (write h s.data (.dict (insert "frame" (.frame fr) s.items)), .ok ())
+        match (if x = y then none else env x y) with     -- a clone of the same frame: no rotation, no offset to compute
+        | some e => (write h s.buf (.buf (mkConv "cartesian" s.form v1)), .error e)
+        | none =>
+          let h := write h s.buf (.buf (mkConv "cartesian" s.form (.xform x y v1)))
+          (write h s.data (.dict (insert "frame" (.frame fr) s.items)), .ok ())
       | .hill _, _ => (write h s.buf (.buf (mkConv "cartesian" s.form v1)), .error .runtime)
       | _, .hill _ => (write h s.buf (.buf (mkConv "cartesian" s.form v1)), .error .value)
       | _, _ => (h, .error .bad)
@@ -200,36 +216,58 @@ def covRotError (cfr fr ofr : Fr) : Option Err :=
     else if ofr ≠ fr then (if ofr.isHill then some .attr else if fr.isHill then some .value else none)
     else none
 
-/-- `Cov.frame = fr` (resolved) on the covariance object at `c`: only the covariance itself is rewritten -/
-def covSetFrame (h : Heap) (c : Nat) (fr : Fr) : Res Unit :=
+/-- the rotation between two frames the covariance setter asks for: does the environment make it raise?
+Local orientations (`to_local`) and clones of the same frame need no date-dependent rotation -/
+def rotErr (env : Env) (a b : Fr) : Option Err :=
+  match a, b with
+  | .reg x _, .reg y _ => if x = y then none else env x y
+  | _, _ => none
+
+/-- `Cov.frame = fr`: first the rotation current → parent frame, then parent → target -/
+def covEnvError (env : Env) (cfr fr ofr : Fr) : Option Err :=
+  match rotErr env cfr ofr with
+  | some e => some e
+  | none => rotErr env ofr fr
+
+/-- `Cov.frame = fr` (resolved) on the covariance object at `c`: the covariance's own buffer and its frame label
+are rewritten, nothing else (`self.view(np.ndarray)[:] = cov; self._data["frame"] = frame`).
+`env`: the rotations the environment makes raise (see `setFrameBasic`) -/
+def covSetFrame (h : Heap) (c : Nat) (fr : Fr) (env : Env := noEnv) : Res Unit :=
   match h[c]? with
-  | some (.cov cv cfr orb ofr) =>
+  | some (.cov b cfr orb ofr) =>
     if fr = cfr then (h, .ok ())
-    else match covRotError cfr fr ofr with
+    else match (match covRotError cfr fr ofr with
+                | some e => some e
+                | none => covEnvError env cfr fr ofr) with
       | some e => (h, .error e)
       | none =>
-        match getSV h orb with
-        | none => (h, .error .bad)
-        | some o => (write h c (.cov (.covx cfr fr ofr o.frame o.val cv) fr orb ofr), .ok ())
+        match getSV h orb, h[b]? with
+        | some o, some (.buf cv) =>
+          let h := write h b (.buf (.covx cfr fr ofr o.frame o.val cv))
+          (write h c (.cov b fr orb ofr), .ok ())
+        | _, _ => (h, .error .bad)
   | _ => (h, .error .bad)
 
+/-- `sv.frame = <Frame object fr>` -/
+def setFrameTo (h : Heap) (a : Nat) (fr : Fr) (env : Env := noEnv) : Res Unit :=
+  match getSV h a with
+  | none => (h, .error .bad)
+  | some s =>
+    match setFrameBasic h a fr env with
+    | (h, .error e) => (h, .error e)
+    | (h, .ok ()) =>
+      match lookup "cov" s.items with
+      | some (.addr c) =>
+        match h[c]? with
+        | some (.cov _ cfr _ _) => if cfr = s.frame then covSetFrame h c fr env else (h, .ok ())
+        | _ => (h, .error .bad)
+      | _ => (h, .ok ())
+
 /-- `sv.frame = name` -/
-def setFrame (h : Heap) (a : Nat) (name : String) : Res Unit :=
+def setFrame (h : Heap) (a : Nat) (name : String) (env : Env := noEnv) : Res Unit :=
   match resolveFrame name with
   | none => (h, .error .unknownFrame)
-  | some fr =>
-    match getSV h a with
-    | none => (h, .error .bad)
-    | some s =>
-      match setFrameBasic h a fr with
-      | (h, .error e) => (h, .error e)
-      | (h, .ok ()) =>
-        match lookup "cov" s.items with
-        | some (.addr c) =>
-          match h[c]? with
-          | some (.cov _ cfr _ _) => if cfr = s.frame then covSetFrame h c fr else (h, .ok ())
-          | _ => (h, .error .bad)
-        | _ => (h, .ok ())
+  | some fr => setFrameTo h a fr env
 
 /-- `sv.cov.frame = name` (`TNW` / `QSW` are kept as they are, anything else goes through `get_frame`) -/
 def covFrame (h : Heap) (a : Nat) (name : String) : Res Unit :=
@@ -331,13 +369,13 @@ def deepRef : Nat → DState → Ref → DState × Option Ref
             | [.addr b', .addr d'] => (finish st2 n (.sv o b' d'), some (.addr n))
             | _ => (st2, none)
           | (st2, none) => (st2, none)
-        | some (.cov v fr orb ofr) =>
+        | some (.cov b fr orb ofr) =>
           let c1 := cloneFr st1 fr
           let c2 := cloneFr c1.1 ofr
-          match deepRef fuel c2.1 (.addr orb) with
-          | (st2, some r') =>
-            match r' with
-            | .addr orb' => (finish st2 n (.cov v c1.2 orb' c2.2), some (.addr n))
+          match deepList (deepRef fuel) c2.1 [.addr b, .addr orb] with
+          | (st2, some rs) =>
+            match rs with
+            | [.addr b', .addr orb'] => (finish st2 n (.cov b' c1.2 orb' c2.2), some (.addr n))
             | _ => (st2, none)
           | (st2, none) => (st2, none)
         | _ => (st1, none)
@@ -410,12 +448,11 @@ def copyRef : Nat → Heap → String → Ref → Res Ref
       | some (.arr t) => let (h, n) := alloc h (.arr t); (h, .ok (.addr n))
       | some (.prop t) => let (h, n) := alloc h (.prop t); (h, .ok (.addr n))
       | some (.man _) => (h, .ok r)                      -- maneuver objects have no `copy`
-      | some (.cov cv cfr orb _) =>
-        -- Cov.copy(): Cov(self.orb, np.array(self), frame=self.frame); the `orb` setter stores
-        -- `orb.copy(form="cartesian")` with its covariance removed; `_orb_frame = orb.frame`
-        match getSV h orb with
-        | none => (h, .error .bad)
-        | some o =>
+      | some (.cov cb cfr orb _) =>
+        -- Cov.copy(): Cov(self.orb, np.array(self), frame=self.frame): the values go into a NEW buffer; the `orb`
+        -- setter stores `orb.copy(form="cartesian")` with its covariance removed; `_orb_frame = orb.frame`
+        match getSV h orb, h[cb]? with
+        | some o, some (.buf cv) =>
           match copySVWith (copyRef fuel) h orb with
           | (h, .error e) => (h, .error e)
           | (h, .ok o') =>
@@ -424,8 +461,10 @@ def copyRef : Nat → Heap → String → Ref → Res Ref
             | some s' =>
               let h := write h s'.buf (.buf (mkConv s'.form "cartesian" s'.val))
               let h := write h s'.data (.dict (insert "cov" .none (insert "form" (.form "cartesian") s'.items)))
-              let (h, n) := alloc h (.cov cv cfr o' o.frame)
+              let (h, nb) := alloc h (.buf cv)
+              let (h, n) := alloc h (.cov nb cfr o' o.frame)
               (h, .ok (.addr n))
+        | _, _ => (h, .error .bad)
       | some (.sv _ _ _) =>
         match copySVWith (copyRef fuel) h a with
         | (h, .error e) => (h, .error e)
@@ -489,8 +528,10 @@ def asSV (h : Heap) (a : Nat) : Res Nat :=
           let (h, n) := alloc h (.sv false b d)
           (h, .ok n)
 
-/-- `sv.cov = Cov(sv, <values k>, sv.frame)` -/
-def setCov (h : Heap) (a : Nat) (k : Nat) : Res Unit :=
+/-- `sv.cov = Cov(sv, <values cv>, <frame cfr>)`: `Cov.__new__` puts the values into a NEW buffer (`np.array(values)`),
+labels it `cfr` without converting, stores a cartesian copy of the state without covariance as `orb` and the
+state's frame as `_orb_frame`; the `cov` setter of the state stores the object (and refreshes `orb` the same way) -/
+def attachCov (h : Heap) (a : Nat) (cv : Val) (cfr : Fr) : Res Unit :=
   match getSV h a with
   | none => (h, .error .bad)
   | some s =>
@@ -502,22 +543,155 @@ def setCov (h : Heap) (a : Nat) (k : Nat) : Res Unit :=
       | some s' =>
         let h := write h s'.buf (.buf (mkConv s'.form "cartesian" s'.val))
         let h := write h s'.data (.dict (insert "cov" .none (insert "form" (.form "cartesian") s'.items)))
-        let (h, c) := alloc h (.cov (.init k) s.frame o s.frame)
+        let (h, nb) := alloc h (.buf cv)
+        let (h, c) := alloc h (.cov nb cfr o s.frame)
         (write h s.data (.dict (insert "cov" (.addr c) s.items)), .ok ())
 
-/-- `sv.maneuvers.append(<maneuver t>)` (the getter creates the list when it is missing) -/
-def addMan (h : Heap) (a : Nat) (t : Nat) : Res Unit :=
+/-- `sv.cov = Cov(sv, <values k>, sv.frame)` (values given as a nested list / ndarray) -/
+def setCov (h : Heap) (a : Nat) (k : Nat) : Res Unit :=
+  match getSV h a with
+  | none => (h, .error .bad)
+  | some s => attachCov h a (.init k) s.frame
+
+/-- `sv.cov = Cov(sv, src.cov, None)`: the constructor branch "values is a Cov" takes the values and the frame of the
+source covariance. `src.cov is None` ends in `np.array(None)`, whose error message indexes an empty shape. -/
+def covFrom (h : Heap) (a src : Nat) : Res Unit :=
+  match getSV h a, getSV h src with
+  | some _, some sb =>
+    match lookup "cov" sb.items with
+    | some (.addr cb) =>
+      match h[cb]? with
+      | some (.cov bb cfr _ _) =>
+        match h[bb]? with
+        | some (.buf cv) => attachCov h a cv cfr
+        | _ => (h, .error .bad)
+      | _ => (h, .error .bad)
+    | _ => (h, .error .index)
+  | _, _ => (h, .error .bad)
+
+/-- the `maneuvers` getter: `self._data.setdefault("maneuvers", [])` — a mere read creates the (empty, mutable) list -/
+def getMans (h : Heap) (a : Nat) : Res Nat :=
   match getSV h a with
   | none => (h, .error .bad)
   | some s =>
-    let (h, m) := alloc h (.man t)
     match lookup "maneuvers" s.items with
+    | some (.addr l) => (h, .ok l)
+    | some _ => (h, .error .bad)
+    | none =>
+      let (h, l) := alloc h (.list [])
+      (write h s.data (.dict (insert "maneuvers" (.addr l) s.items)), .ok l)
+
+/-- `bool(sv.maneuvers)`: what `repr()`, `if orb.maneuvers:` and the numerical propagators do -/
+def readMan (h : Heap) (a : Nat) : Res Unit :=
+  match getMans h a with
+  | (h, .ok _) => (h, .ok ())
+  | (h, .error e) => (h, .error e)
+
+/-- `sv.maneuvers.append(<maneuver t>)` -/
+def addMan (h : Heap) (a : Nat) (t : Nat) : Res Unit :=
+  match getMans h a with
+  | (h, .error e) => (h, .error e)
+  | (h, .ok l) =>
+    match h[l]? with
+    | some (.list ms) =>
+      let (h, m) := alloc h (.man t)
+      (write h l (.list (ms ++ [.addr m])), .ok ())
+    | _ => (h, .error .bad)
+
+/-! ### in-place changes of free metadata containers (through `sv.<key>`, i.e. `__getattr__`) -/
+
+/-- `sv.<key>.append(x)`: a missing key, a string, a dict, an ndarray have no `append` (AttributeError) -/
+def metaAppend (h : Heap) (a : Nat) (key : String) (x : Nat) : Res Unit :=
+  match getSV h a with
+  | none => (h, .error .bad)
+  | some s =>
+    match lookup key s.items with
     | some (.addr l) =>
       match h[l]? with
-      | some (.list ms) => (write h l (.list (ms ++ [.addr m])), .ok ())
+      | some (.list xs) => (write h l (.list (xs ++ [.tok x])), .ok ())
+      | _ => (h, .error .attr)
+    | _ => (h, .error .attr)
+
+/-- `sv.<key>["w"] = x`: a missing key raises AttributeError, a list or a string TypeError -/
+def metaSetItem (h : Heap) (a : Nat) (key : String) (x : Nat) : Res Unit :=
+  match getSV h a with
+  | none => (h, .error .bad)
+  | some s =>
+    match lookup key s.items with
+    | some (.addr d) =>
+      match h[d]? with
+      | some (.dict items) => (write h d (.dict (insert "w" (.tok x) items)), .ok ())
+      | _ => (h, .error .typeErr)
+    | some _ => (h, .error .typeErr)
+    | none => (h, .error .attr)
+
+/-- `sv.nested["k"].append(x)`: a container nested in a metadata container -/
+def nestedAppend (h : Heap) (a : Nat) (x : Nat) : Res Unit :=
+  match getSV h a with
+  | none => (h, .error .bad)
+  | some s =>
+    match lookup "nested" s.items with
+    | some (.addr d) =>
+      match h[d]? with
+      | some (.dict items) =>
+        match lookup "k" items with
+        | some (.addr l) =>
+          match h[l]? with
+          | some (.list xs) => (write h l (.list (xs ++ [.tok x])), .ok ())
+          | _ => (h, .error .attr)
+        | _ => (h, .error .attr)      -- KeyError
+      | _ => (h, .error .attr)
+    | _ => (h, .error .attr)
+
+/-- `sv.arr[0] = 0.5` on an ndarray kept as metadata -/
+def arrSet (h : Heap) (a : Nat) : Res Unit :=
+  match getSV h a with
+  | none => (h, .error .bad)
+  | some s =>
+    match lookup "arr" s.items with
+    | some (.addr r) =>
+      match h[r]? with
+      | some (.arr _) => (write h r (.arr 0), .ok ())
       | _ => (h, .error .bad)
-    | _ =>
-      let (h, l) := alloc h (.list [.addr m])
-      (write h s.data (.dict (insert "maneuvers" (.addr l) s.items)), .ok ())
+    | _ => (h, .error .attr)
+
+/-! ### `copy.deepcopy(sv)` as the code has it (open finding C15-deepcopy-shares-data) -/
+
+/-- `copy.deepcopy(sv)` / `copy.copy(sv)`: StateVector defines neither `__deepcopy__` nor `__copy__`, so `ndarray`'s run: the
+buffer is duplicated and `__array_finalize__` hands the new object `obj._data.copy()` — a SHALLOW copy of the dict:
+every container, the maneuver list, the covariance object and the propagator are the receiver's own -/
+def stdDeepcopy (h : Heap) (a : Nat) : Res Nat :=
+  match getSV h a with
+  | none => (h, .error .bad)
+  | some s =>
+    let (h, b) := alloc h (.buf s.val)
+    let (h, d) := alloc h (.dict s.items)
+    let (h, n) := alloc h (.sv s.orbit b d)
+    (h, .ok n)
+
+/-! ### constructors given an existing object -/
+
+/-- the `date` entry (a Date is an immutable value) -/
+def dateTok (items : Items) : Ref :=
+  match lookup "date" items with
+  | some (.tok t) => .tok t
+  | _ => .none
+
+/-- the `propagator` entry `Orbit.__new__` adds -/
+def propItems : Option Nat → Items
+  | some p => [("propagator", .addr p)]
+  | none => []
+
+/-- `StateVector(src, src.date, src.form, src.frame)` / `Orbit(src, …, p)`: the coordinates go through
+`np.array([float(x) for x in coord])` into a NEW buffer; `_data` holds date, form, frame (and the propagator) only -/
+def ctor (h : Heap) (a : Nat) (prop : Option Nat) : Res Nat :=
+  match getSV h a with
+  | none => (h, .error .bad)
+  | some s =>
+    let (h, b) := alloc h (.buf s.val)
+    let items : Items := [("date", dateTok s.items), ("form", .form s.form), ("frame", .frame s.frame)] ++ propItems prop
+    let (h, d) := alloc h (.dict items)
+    let (h, n) := alloc h (.sv prop.isSome b d)
+    (h, .ok n)
 
 end BeyondVerif.Heap
